@@ -732,6 +732,8 @@ func checkInheritance(c *Ctx, r *Report) {
 		func(fi *FuncInfo) func(ast.Node) bool { return w.appendTo(fi, w.resultSlice(fi)) }, "append(securities)",
 		nil, true,
 		"every @Security annotation (with or without scopes) becomes one alternative; the only other exit is an error")
+	// what decides which checks a route gets: the security resolution consults what it was reviewed to consult
+	ruleDecisionInputsOf(c, r, "C03.d", "core/metadata.GetDefaultSecurity", "core/metadata.GetSecurityFromContext", "core/metadata.GetRouteSecurityWithInheritance", "(core/metadata.ControllerMeta).Reduce", "(core/metadata.ReceiverMeta).Reduce")
 	// GetDefaultSecurity yields the configured component
 	if fi := need(c, r, "C03.d", "core/metadata.GetDefaultSecurity"); fi != nil {
 		viol := ""
